@@ -124,6 +124,15 @@ def potential_operator(fam, op, space, points, k=None, parameters=None, assemble
     raise ValueError(fam)
 
 
-def relerr(a, b):
-    s = max(float(np.max(np.abs(a))) if np.size(a) else 0.0, float(np.max(np.abs(b))) if np.size(b) else 0.0, 1e-300)
+def relerr(a, b, floor=1e-300):
+    """max|a-b| / max(|a|,|b|,floor). `floor` is an absolute scale for quantities that may vanish identically
+    (e.g. the magnetic-field operator between coplanar elements), so that rounding noise is not read as a relative error."""
+    s = max(float(np.max(np.abs(a))) if np.size(a) else 0.0, float(np.max(np.abs(b))) if np.size(b) else 0.0, floor)
     return float(np.max(np.abs(np.asarray(a) - np.asarray(b)))) / s if np.size(a) else 0.0
+
+
+def entry_floor(grid, fam, op):
+    """Absolute floor for matrix entries of an operator on `grid` (1e-10 x natural magnitude D^p)."""
+    D = float(np.linalg.norm(grid.bounding_box[:, 1] - grid.bounding_box[:, 0]))
+    p = {"V": 3, "K": 2, "Kp": 2, "W": 1, "E": 2, "M": 2, "I": 2, "LB": 0}.get(op, 2)
+    return 1e-10 * D**p
